@@ -192,3 +192,63 @@ def uncoupled_additivity(cx, energies):
                 cx.prove_eq("diagonal_peak_is_monomer%s" % (key,), val, mono[key], tol=1e-9)
     for key in mono:
         cx.prove("monomer_peak_present%s" % (key,), key in sums)
+
+
+@harness("C12", "calculator_signal_bookkeeping",
+         quick=[dict(types=["R", "NR", "R"]), dict(types=["NR", "NR"]), dict(types=[])],
+         thorough=[dict(types=t) for t in (["R", "NR", "R"], ["NR", "NR"], ["R"], [], ["R", "NR", "NR", "R"])],
+         functions=["quantarhei/spectroscopy/mocktwodcalculator.py:MockTwoDResponseCalculator.calculate",
+                    "quantarhei/spectroscopy/mocktwodcalculator.py:MockTwoDResponseCalculator.calculate_one",
+                    "quantarhei/spectroscopy/mocktwodcalculator.py:MockTwoDResponseCalculator.bootstrap",
+                    "quantarhei/spectroscopy/twod2.py:TwoDSpectrumBase._add_data"],
+         bound="up to 4 pathways of given types whose line-shape arrays are arbitrary complex numbers (1x1 grid; the "
+               "shape function is stubbed): the calculator's total signal equals rephasing + non-rephasing, each "
+               "being the sum of its pathways' contributions (calculate() and calculate_one())",
+         out="the Gaussian/Lorentzian line-shape values themselves")
+def calculator_signal_bookkeeping(cx, types):
+    import quantarhei as qr
+    from quantarhei.spectroscopy.mocktwodcalculator import MockTwoDResponseCalculator
+    with cx.concrete():
+        t1 = qr.TimeAxis(0.0, 1, 1.0)
+        t2 = qr.TimeAxis(0.0, 2, 1.0)
+        t3 = qr.TimeAxis(0.0, 1, 1.0)
+        calc = MockTwoDResponseCalculator(t1, t2, t3)
+        try:
+            calc.bootstrap(rwa=1.0)
+        except Exception:
+            # a one-point axis has no conjugate grid; the frequency axes only carry the shape here
+            calc.oa1 = qr.FrequencyAxis(0.0, 1, 1.0)
+            calc.oa3 = qr.FrequencyAxis(0.0, 1, 1.0)
+            calc.tc = 0
+            calc.shape = "Gaussian"
+    vals = [cx.cplx("X%d" % i) for i in range(len(types))]
+    pws = [types_ns(i, t) for i, t in enumerate(types)]
+
+    def fake_shape(pathway, shape="Gaussian"):
+        a = numpy.zeros((1, 1), dtype=complex)
+        if pathway is not None:
+            a[0, 0] = vals[pathway.idx]
+        return a
+    calc.calculate_pathway = fake_shape
+    calc.set_pathways(pws)
+    sumR = 0
+    sumN = 0
+    for v, t in zip(vals, types):
+        if t == "R":
+            sumR = sumR + v
+        else:
+            sumN = sumN + v
+    for which in ("calculate", "calculate_one"):
+        tw = calc.calculate() if which == "calculate" else calc.calculate_one(0)
+
+        def view(flag):
+            tw.set_data_flag(flag)
+            d = tw.d__data
+            return 0 if d is None else d[0, 0]
+        cx.prove_eq(which + "/rephasing", view(qr.signal_REPH), sumR)
+        cx.prove_eq(which + "/nonrephasing", view(qr.signal_NONR), sumN)
+        cx.prove_eq(which + "/total", view(qr.signal_TOTL), sumR + sumN)
+
+
+def types_ns(i, t):
+    return types.SimpleNamespace(idx=i, pathway_type=t)
